@@ -5,3 +5,4 @@ import OlVerif.Props.C06
 #print axioms OlVerif.C06.binder_is_found
 #print axioms OlVerif.C06.binder_knows
 #print axioms OlVerif.C06.dictionary_is_new
+#print axioms OlVerif.C06.every_free_name_is_resolved
